@@ -1,6 +1,12 @@
 (** Entry.v — one entry point per model function for the correspondence check:
     the harness sends  ["op", arg]  as one line of ASCII JSON, the model answers one line. *)
 From InToto.Model Require Import Base Json Rule Glob Rules Utf8 Match DirDigest Canon EntryVerify.
+From InToto.Model Require EntrySign.
+From InToto.Model Require EntryRun.
+From InToto.Model Require Import EntryResolve.
+From InToto.Model Require EntryRecord.
+From InToto.Model Require EntryStreams.
+From InToto.Model Require EntrySublay.
 
 Definition s_ok : str := [111;107]%N.
 Definition jok (j : json) : json := JDict [(s_ok, j)].
@@ -115,21 +121,29 @@ Definition op_rules_trace : str := [114;117;108;101;115;95;116;114;97;99;101]%N.
 Definition op_fnmatch : str := [102;110;109;97;116;99;104]%N.
 
 Definition run_op (op : str) (arg : json) : json :=
+  match run_op_resolve op arg with Some j => j | None =>
   if eqs op op_verify then verify_op arg
+  else if EntrySign.handles_sign op then EntrySign.run_op_sign_total op arg
+  else if EntryRecord.handles op then EntryRecord.run op arg
   else if eqs op op_canon then canon_op arg
   else if eqs op op_match_products then match_products_op arg
   else if eqs op op_dir_text then dir_text_op arg
   else if eqs op op_ostree then ostree_op arg
   else if eqs op op_rules_trace then rules_trace arg
   else if eqs op op_fnmatch then fnmatch_op arg
-  else
+  else match EntryStreams.run_op_streams op arg with Some j => j | None =>
+  match EntrySublay.run_op_sublay op arg with Some r => r | None =>
   if eqs op op_lower then match arg with JStr s => jok (JStr (lower s)) | _ => jerr EUnmodelled end
   else if eqs op op_upper then match arg with JStr s => jok (JStr (upper s)) | _ => jerr EUnmodelled end
   else if eqs op op_unpack_rule then jres meaning_json (unpack_rule arg)
   else if eqs op op_pack_unpacked then
     (* unpack, then pack the meaning: {"ok": [tokens]} / {"err": ..} ; error if unpack fails *)
     jres jstr_list (do m <- unpack_rule arg; pack_rule m)
-  else jerr EUnmodelled.
+  else match EntryRun.run_op_run op arg with Some r => r | None =>
+  jerr EUnmodelled end
+  end
+  end
+  end.
 
 Definition bad_request : list N := [66;65;68;45;82;69;81;85;69;83;84]%N.
 
